@@ -120,6 +120,44 @@ def session_part(ctx, only_actions: tuple | None = None) -> dict:
     return {"states": r.distinct, "transitions": r.generated, "replayed": len(reps), "steps": sum(x["steps"] for x in reps)}
 
 
+def replay_part(ctx, num: int | None = None) -> tuple[int, int]:
+    """TLC -simulate behaviours of spec/Acked.tla replayed into the real ReliableSender / Listener driven by the real
+    Bridge.recv_events and Executor.recv_loop (also used by C02 with a smaller sample: a command must reach its executor exactly once)."""
+    scratch = ctx.scratch
+    # ---- P2: behaviours replayed into the real code
+    R = 2
+    num = num or (300 if ctx.quick else 3000)
+    cfg = tlc.cfg_text(spec="Spec", constants=consts(R, 3, 2))
+    d = tlc.stage(scratch, "sim", ["Acked"], {"MC.tla": mc_mod(2, 2), "MC.cfg": cfg})
+    out = d / "b"
+    out.mkdir(exist_ok=True)
+    r = tlc.check(d, "MC", workers=1, timeout=900, simulate=f"file={out}/b,num={num}", depth=40, seed=ctx.seed + 5, deadlock=False)
+    files = sorted(out.glob("b_*"))
+    if not files:
+        raise MachineryError("TLC simulation produced no behaviours:\n" + r.out[-2000:])
+    rf = scratch / "replay.json"
+    p = subprocess.run([sys.executable, "-W", "ignore", "-c", REPLAY, _listfile([str(f) for f in files]), str(R), str(rf)],
+                       cwd=ROOT, stdout=subprocess.PIPE, stderr=subprocess.STDOUT, text=True, timeout=1800)
+    if p.returncode != 0 or not rf.exists():
+        raise MachineryError("replay failed:\n" + p.stdout[-3000:])
+    reps = json.loads(rf.read_text())
+    steps = sum(x["steps"] for x in reps)
+    ctx.log(f"replayed {len(reps)} behaviours, {steps} steps")
+    for x in reps:
+        mm = x.get("mismatch")
+        if not mm:
+            continue
+        if "harness_error" in mm:
+            raise MachineryError(f"replay harness error: {mm}")
+        fields = sorted(mm["diffs"])
+        act = mm["action"]
+        key = "conformance:" + str(act[0]) + (":" + str(act[1]) if len(act) > 1 and act[0] == "Iter" else "") + ":" + "+".join(fields)
+        ctx.violate(key, f"real endpoints deviate from spec/Acked.tla at step {mm['step']} ({act}): {mm['diffs']}",
+                    {"actions": x["actions"][: mm["step"]], "mismatch": mm}, clause="+".join(fields))
+    ctx.acked_sample = reps[0]["actions"][:14] if reps else []
+    return len(reps), steps
+
+
 def senders_part(ctx) -> None:
     """Several senders into one real Listener, incl. long histories: each (sender, idx) is delivered exactly once and acknowledged
     to its sender (spec/Acked.tla, section "several senders"). Also used by C02: a command delivered twice is dispatched twice."""
@@ -166,36 +204,8 @@ def run(ctx):
             ctx.violate(f"model:{v}", f"TLC: {v} violated in run {name} of spec/Acked.tla",
                         {"run": name, "tlc": r.trace[:8000]}, clause=v)
     ctx.log(f"model checking: {states} states")
-    # ---- P2: behaviours replayed into the real code
-    R = 2
-    num = 300 if ctx.quick else 3000
-    cfg = tlc.cfg_text(spec="Spec", constants=consts(R, 3, 2))
-    d = tlc.stage(scratch, "sim", ["Acked"], {"MC.tla": mc_mod(2, 2), "MC.cfg": cfg})
-    out = d / "b"
-    out.mkdir(exist_ok=True)
-    r = tlc.check(d, "MC", workers=1, timeout=900, simulate=f"file={out}/b,num={num}", depth=40, seed=ctx.seed + 5, deadlock=False)
-    files = sorted(out.glob("b_*"))
-    if not files:
-        raise MachineryError("TLC simulation produced no behaviours:\n" + r.out[-2000:])
-    rf = scratch / "replay.json"
-    p = subprocess.run([sys.executable, "-W", "ignore", "-c", REPLAY, _listfile([str(f) for f in files]), str(R), str(rf)],
-                       cwd=ROOT, stdout=subprocess.PIPE, stderr=subprocess.STDOUT, text=True, timeout=1800)
-    if p.returncode != 0 or not rf.exists():
-        raise MachineryError("replay failed:\n" + p.stdout[-3000:])
-    reps = json.loads(rf.read_text())
-    steps = sum(x["steps"] for x in reps)
-    ctx.log(f"replayed {len(reps)} behaviours, {steps} steps")
-    for x in reps:
-        mm = x.get("mismatch")
-        if not mm:
-            continue
-        if "harness_error" in mm:
-            raise MachineryError(f"replay harness error: {mm}")
-        fields = sorted(mm["diffs"])
-        act = mm["action"]
-        key = "conformance:" + str(act[0]) + (":" + str(act[1]) if len(act) > 1 and act[0] == "Iter" else "") + ":" + "+".join(fields)
-        ctx.violate(key, f"real endpoints deviate from spec/Acked.tla at step {mm['step']} ({act}): {mm['diffs']}",
-                    {"actions": x["actions"][: mm["step"]], "mismatch": mm}, clause="+".join(fields))
+    n_reps, steps = replay_part(ctx)
+    reps = [None] * n_reps
     # ---- malformed / well-formed frame shapes through the real Listener, judged by TLC
     cases_file, shapes = p3.generate(ctx, "Acked", {"N": "<- MC_N", "R": "2", "Faults": "0", "Retries": "<- MC_Retries", "MaxAges": "0"},
                                      modules=["Acked"], tag="shapes", defs=DEFS, env={"PASS": "shapes"})
@@ -226,7 +236,7 @@ def run(ctx):
                 "staleness), frames on the wire, acked sets, delivered messages and raise after every step; every multipart "
                 "shape of <= 4 parts is fed to the real Listener and judged by Acked!RecvOne",
     })
-    ctx.sample({"behaviour": reps[0]["actions"][:14]})
+    ctx.sample({"behaviour": getattr(ctx, "acked_sample", [])})
     ctx.assumptions += ["max_retries_per_message is patched to the model's R (2) in the harness process; the code constant 20 "
                         "only scales the budget", "one executor; the Syn address component is constant per direction",
                         "heartbeats are switched off in the harness (they are ordinary messages of the same layer)"]
